@@ -15,7 +15,9 @@ RULE = ("evaluate: expression trees over the supported grammar (+ - * / // % ** 
         ">= 3, or operands of different types in one operator, or a boolean operator whose later operand follows a "
         "short-circuit point, or a tuple/subscript/attribute node. subscribe: a template evaluated with subscription "
         "followed by a generated history of variable/setting/player/device changes; non-trivial = a conditional or "
-        "boolean node, or >= 2 changes of variables the evaluation read. Distinct = distinct case hash.")
+        "boolean node, or >= 2 changes of variables the evaluation read. devattr: 1-3 long-lived subscribers of per-player "
+        "device attributes and a history of device events, drains (next ball / next player) and mode stop/start; "
+        "non-trivial = the history reaches a next ball or a next player. Distinct = distinct case hash.")
 ASSUMPTIONS = [
     "exponents are bounded (|e| <= 6), repeat counts <= 64 and integer results <= 4096 bits: larger cases are excluded "
     "and counted",
@@ -24,6 +26,10 @@ ASSUMPTIONS = [
     "is accepted",
     "a result of None is reported as the template's default (documented behaviour of evaluate())",
     "only single comparisons (the manager documents chained comparisons as unsupported)",
+    "player variables are int/float/str (Player.__setattr__ posts player_<var> for these types only); machine variables "
+    "may also be None",
+    "devattr: while the mode is not running its devices have no state and the attributes no value: the subscriber is "
+    "audited only while the mode runs; the history ends with the game",
 ]
 
 BIN = ["+", "-", "*", "/", "//", "%", "**", "^"]
